@@ -246,3 +246,22 @@ def register(M):
     M('C18_wantflag', ['C18'], 'doctest_part.py',
       "        if want_lines:\n            part_text += '\\n' + want_text", "        if self.want:\n            part_text += '\\n' + self.want",
       'want=False still shows the want')
+
+    # ---- C14 ---------------------------------------------------------------
+    M('C14_narrow', ['C14'], 'parser.py',
+      "            all_parts = list(self._package_groups(grouped_lines))\n        except Exception as orig_ex:",
+      "            all_parts = list(self._package_groups(grouped_lines))\n        except SyntaxError as orig_ex:",
+      'parse wraps only SyntaxError into DoctestParseError')
+    M('C14_reraise', ['C14'], 'core.py',
+      "        elif isinstance(ex, exceptions.DoctestParseError):\n            pass\n        else:\n            raise",
+      "        elif isinstance(ex, exceptions.DoctestParseError):\n            raise\n        else:\n            raise",
+      'parse_docstr_examples re-raises DoctestParseError')
+    M('C14_nowarn', ['C14'], 'core.py',
+      "        print('msg = {}'.format(msg))\n        warnings.warn(msg)\n", "        print('msg = {}'.format(msg))\n",
+      'no warning for a docstring that does not parse')
+    M('C14_module', ['C14'], 'core.py',
+      "    n_parsed = 0\n    try:\n        if parser_kw is None:", "    n_parsed = 0\n    if '>>>' in docstr and docstr.count('(') != docstr.count(')') and 'Example' not in docstr:\n        raise SyntaxError('unbalanced')\n    try:\n        if parser_kw is None:",
+      'an eager syntax check outside the try block lets SyntaxError escape')
+    M('C14_hang', ['C14'], 'parser.py',
+      "        string = string.expandtabs()\n", "        string = string.expandtabs()\n        while '\\x0c' in string and 'lambda' in string:\n            pass\n",
+      'parsing never finishes for texts holding a form feed and a lambda (artificial hang for the watchdog)')
